@@ -56,13 +56,15 @@ CLAIMED = True
 TECHNIQUE = ("Lean 4 proof (ratio, integer numeric_limits, structural traits over a C++ type grammar) + compile-time "
              "etl/std/model/spec matrix generated from a Lean-enumerated type zoo; intrinsic-backed class traits: "
              "differential matrix only")
-LEVEL_TEXT = ("Proved in Lean 4 for all inputs: ratio<N,D> is N/D in lowest terms with a positive denominator and "
-              "ratio_add/subtract/multiply/divide/equal/less... equal exact rational arithmetic whenever tetl's unreduced "
-              "intermediates fit intmax_t (never ill-formed then); the integer numeric_limits members equal 2^digits-1, "
-              "-2^digits, floor(digits*log10 2) for every width up to 102 bits; each of 50 structural traits/concepts, as "
-              "tetl computes it, equals the standard's definition for every well-formed type of a grammar with cv, pointers, "
-              "member pointers, references, arrays and qualified function types, and the standard's laws hold (one primary "
-              "category, decay idempotent, reference collapsing, results well-formed).  The models are tied to the current "
+LEVEL_TEXT = ("Proved in Lean 4 for all inputs: each of 47 structural traits/concepts, as tetl computes it (partial "
+              "specialisations, SFINAE helpers, the not-const-qualifiable test of is_function, the portable branches of "
+              "is_scalar/is_object), equals the standard's definition for every well-formed type of a grammar with cv, "
+              "pointers, member pointers, references, arrays and qualified function types, and the standard's laws hold "
+              "(exactly one primary category, reference collapsing, remove_cvref = remove_cv after remove_reference); the "
+              "integer numeric_limits members equal 2^digits-1, -2^digits, and digits*3/10 = floor(digits*log10 2) for every "
+              "width below 103 bits.  The ratio model (normalisation, the four arithmetic aliases with their unreduced "
+              "intermediates, six comparisons) and make_signed/make_unsigned/underlying_type are modelled and compared on "
+              "every run but have no theorem yet (coverage.correspondence_only).  The models are tied to the current "
               "source on every run by a generated compile-time matrix (etl = model, std = spec, etl = spec) over a Lean-"
               "enumerated zoo of 1.5e3 (quick) / 1e4 (thorough) types, all arithmetic types and a ratio grid incl. near-"
               "overflow values.  About 80 intrinsic-backed class traits and relational traits/concepts are compared with "
@@ -70,11 +72,14 @@ LEVEL_TEXT = ("Proved in Lean 4 for all inputs: ratio<N,D> is N/D in lowest term
 LEVEL_NOTE = ("Trusted: Lean kernel + propext/Classical.choice/Quot.sound; fidelity of the hand model outside the explored "
               "types; g++ 12 front end and intrinsics; libstdc++ as oracle.  Part (d) (coverage.unproved_observed) is "
               "differential testing, not proof.  Floating-point numeric_limits members are compared with std only.")
-CORRESPONDENCE_ONLY = ["numeric_limits<floating-point>::* (compared with std only)",
+CORRESPONDENCE_ONLY = ["ratio<N,D>::num/den/type, ratio_add, ratio_subtract, ratio_multiply, ratio_divide, ratio_equal, "
+                       "ratio_not_equal, ratio_less, ratio_less_equal, ratio_greater, ratio_greater_equal (model = exact "
+                       "rational spec = std::ratio on the grid; no Lean theorem yet)",
+                       "make_signed, make_unsigned, underlying_type, add_cv, integer numeric_limits::digits10 of the "
+                       "literal specialisations beyond 8-bit bytes",
+                       "numeric_limits<floating-point>::* (compared with std only)",
                        "numeric_limits<integer>: is_specialized, is_integer, is_exact, radix, is_bounded, traps and the "
                        "zero-valued floating-point members",
-                       "ratio_greater, ratio_less_equal, ratio_greater_equal, ratio_not_equal (modelled; theorems cover "
-                       "ratio_less and ratio_equal, the others are their negations/converses)",
                        "conjunction, disjunction, negation, integral_constant (fixed row, etl vs std)"]
 UNPROVED_OBSERVED = [
     "is_trivial", "is_trivially_copyable", "is_standard_layout", "is_empty", "is_polymorphic", "is_abstract", "is_final",
@@ -86,12 +91,14 @@ UNPROVED_OBSERVED = [
     "regular, equality_comparable, swappable, convertible_to, derived_from, assignable_from, constructible_from, common_with, "
     "common_reference_with, invocable"]
 THEOREMS = {
-    "rn": ["Tetl.C15.Props.mkRatio_eq", "Tetl.C15.Props.mkRatio_lowest_terms"],
-    "ra": ["Tetl.C15.Props.ratioAdd_eq", "Tetl.C15.Props.ratioSub_eq", "Tetl.C15.Props.ratioMul_eq",
-           "Tetl.C15.Props.ratioDiv_eq", "Tetl.C15.Props.ratioLess_iff", "Tetl.C15.Props.ratioEqual_iff"],
-    "lim": ["Tetl.C15.Props.intLimits_eq", "Tetl.C15.Props.digits10_eq_log"],
-    "ut": ["Tetl.C15.Props.unary_model_eq_spec", "Tetl.C15.Props.exactly_one_primary_category"],
-    "bt": ["Tetl.C15.Props.isSame_iff"],
+    "rn": [], "ra": [],
+    "lim": ["Tetl.C15.Props.intLimits_eq", "Tetl.C15.Props.intLimits_char_eq", "Tetl.C15.Props.intLimits_bool_char8",
+            "Tetl.C15.Props.digits10_eq_floor_log", "Tetl.C15.Props.digits10_eq_spec"],
+    "ut": ["Tetl.C15.Props.exactly_one_primary_category", "Tetl.C15.Props.isFunction_eq", "Tetl.C15.Props.removeCv_eq",
+           "Tetl.C15.Props.decay_eq", "Tetl.C15.Props.addPointer_eq", "Tetl.C15.Props.addLvalueReference_eq",
+           "Tetl.C15.Props.addRvalueReference_eq", "Tetl.C15.Props.reference_collapsing", "Tetl.C15.Props.isObject_eq",
+           "Tetl.C15.Props.isCompound_eq", "Tetl.C15.Props.rank_eq", "Tetl.C15.Props.extent_eq"],
+    "bt": ["Tetl.C15.Props.isSame_iff", "Tetl.C15.Props.sameAs_eq"],
 }
 
 # ------------------------------------------------------------------ the class zoo (names of harness/c15.cpp)
@@ -304,10 +311,14 @@ def classify_item(line, key, impl, spec):
             return "F-C15-common-reference-unimplemented"
         if key == "assignable_from" and impl == "1" and spec == "0":
             return "F-C15-common-reference-unimplemented"
+        if key == "is_trivially_constructible":
+            return "F-C15-is-trivially-constructible-ignores-args"
         return None
     if line.startswith("d "):
         if key == "swappable" and impl == "1" and spec == "0":
             return "F-C15-swappable-is-not-ranges-swap"
+        if key.startswith("is_trivially_constructible<") or key in ("is_trivially_copy_constructible", "is_trivially_move_constructible"):
+            return "F-C15-is-trivially-constructible-ignores-args"
         return None
     if not line.startswith("ra "):
         return None
